@@ -74,6 +74,8 @@ def lift(x) -> z3.ArithRef:
         return rv(x)
     if isinstance(x, np.ndarray) and x.ndim == 0:
         return lift(x.item())
+    if isinstance(x, z3.ArithRef):
+        return z3.ToReal(x) if x.sort() == z3.IntSort() else x
     raise TypeError(f"cannot lift {type(x)}")
 
 
